@@ -202,6 +202,180 @@ theorem hstep_rel (L : Layout) (hL : LOK L) (h : HState) (hG : GOK L h) (op : HO
     · exact Or.inr (Or.inr rfl)
     · exact Or.inl rfl
 
+/-! ## an operation on target `i` writes only at the entry of target `i` -/
+
+/-- bytes outside the 13 entry bytes of target `i` are the same -/
+def Rel1 (L : Layout) (i : Nat) (s s' : State) : Prop :=
+  ∀ q, (∀ j, j < 13 → q ≠ L.org i + BitVec.ofNat 64 j) → s'.mem q = s.mem q
+
+theorem guardWrite_rel1 (L : Layout) (i : Nat) (g : Guard) (bytes : List Byte) (hg : g.origin = L.org i)
+    (hlen : bytes.length = 13) (s : State) : Rel1 L i s (guardWrite g bytes s).1 := by
+  intro q hq
+  simp only [guardWrite]
+  split
+  · rw [hg]
+    apply writeTo_frame
+    intro j hj
+    rw [hlen] at hj
+    exact hq j hj
+  · rfl
+
+theorem unpatchEntry_rel1 (L : Layout) (h : HState) (hG : GOK L h) (e : Nat × Bool) :
+    Rel1 L e.1 h.m (unpatchEntry h e).1 := by
+  simp only [unpatchEntry]
+  split
+  · rename_i g _ hs
+    obtain ⟨ho, hob, _⟩ := hG e.1 g hs
+    exact guardWrite_rel1 L e.1 g g.originBytes ho hob h.m
+  · intro q _; rfl
+
+theorem find_fst (t : List (Nat × Bool)) (i : Nat) (e : Nat × Bool)
+    (h : t.find? (fun e => e.1 = i) = some e) : e.1 = i := by
+  have := List.find?_some h
+  simpa using this
+
+/-- the operations that name one target -/
+def _root_.Mem.HOp.target : HOp → Option Nat
+  | .patch i => some i
+  | .apply i => some i
+  | .unpatch i => some i
+  | .restore i => some i
+  | .unpatchFn i => some i
+  | .unpatchAll => none
+  | .unmap _ => none
+
+theorem hstep_rel1 (L : Layout) (h : HState) (hG : GOK L h) (op : HOp) (i : Nat) (ht : op.target = some i) :
+    Rel1 L i h.m (hstep L h op).1.m := by
+  cases op with
+  | patch k =>
+    cases ht
+    have hpre : Rel1 L i h.m (prePatch h i).1 := by
+      simp only [prePatch]
+      cases hf : h.table.find? (fun e => e.1 = i) with
+      | none => intro q _; rfl
+      | some e =>
+        have := unpatchEntry_rel1 L h hG e
+        rw [find_fst h.table i e hf] at this
+        exact this
+    simp only [hstep]
+    split
+    · exact hpre
+    · rw [(patchAfter_ok L h hG i (prePatch h i).1).1]; exact hpre
+  | apply k =>
+    cases ht
+    simp only [hstep]
+    cases hs : h.slots i with
+    | none => intro q _; rfl
+    | some g =>
+      obtain ⟨ho, _, hjb⟩ := hG i g hs
+      intro q hq
+      simp only
+      rw [ho]
+      apply writeTo_frame
+      intro j hj
+      rw [hjb] at hj
+      exact hq j hj
+  | unpatch k =>
+    cases ht
+    simp only [hstep]
+    cases hs : h.slots i with
+    | none => intro q _; rfl
+    | some g =>
+      obtain ⟨ho, hob, _⟩ := hG i g hs
+      exact guardWrite_rel1 L i g g.originBytes ho hob h.m
+  | restore k =>
+    cases ht
+    simp only [hstep]
+    cases hs : h.slots i with
+    | none => intro q _; rfl
+    | some g =>
+      obtain ⟨ho, _, hjb⟩ := hG i g hs
+      exact guardWrite_rel1 L i g g.jumpBytes ho hjb h.m
+  | unpatchFn k =>
+    cases ht
+    simp only [hstep]
+    cases hf : h.table.find? (fun e => e.1 = i) with
+    | none => intro q _; rfl
+    | some e =>
+      have hr := unpatchEntry_rel1 L h hG e
+      rw [find_fst h.table i e hf] at hr
+      simp only
+      rcases hu : unpatchEntry h e with ⟨s1, r⟩
+      rw [hu] at hr
+      cases r <;> exact hr
+  | unpatchAll => cases ht
+  | unmap p => cases ht
+
+/-! ## a target too short for the jump never gets a guard -/
+
+theorem unpatchAllFrom_slots : ∀ (es : List (Nat × Bool)) (h : HState), (unpatchAllFrom h es).1.slots = h.slots := by
+  intro es
+  induction es with
+  | nil => intro h; rfl
+  | cons e rest ih =>
+    intro h
+    simp only [unpatchAllFrom]
+    rcases hu : unpatchEntry h e with ⟨s1, r⟩
+    cases r <;> simp only <;> first | rfl | exact ih _
+
+theorem hstep_short (L : Layout) (h : HState) (i : Nat) (hs : L.fsz i ≤ 13) (hn : h.slots i = none) (op : HOp) :
+    (hstep L h op).1.slots i = none := by
+  have hjl : ∀ k, L.fsz k ≤ 13 → genJumpData (L.org k) L.to (L.fsz k) = .error "jumpInstSize-bigger-than-origin-FuncSize" := by
+    intro k hk
+    simp only [genJumpData, jump_len, ge_iff_le, hk, if_true]
+  cases op with
+  | patch k =>
+    simp only [hstep]
+    split
+    · exact hn
+    · simp only [patchAfter]
+      by_cases hki : k = i
+      · subst hki
+        rw [hjl k hs]; exact hn
+      · cases hj : genJumpData (L.org k) L.to (L.fsz k) with
+        | error e => exact hn
+        | ok jd =>
+          simp only
+          split
+          · exact hn
+          · simp only [setSlot]
+            have : ¬ i = k := fun e => hki e.symm
+            simp only [this, if_false]; exact hn
+  | apply k =>
+    simp only [hstep]
+    cases hk : h.slots k with
+    | none => exact hn
+    | some g =>
+      simp only [setSlot]
+      by_cases hki : i = k
+      · subst hki; rw [hn] at hk; cases hk
+      · simp only [hki, if_false]; exact hn
+  | unpatch k =>
+    simp only [hstep]
+    cases hk : h.slots k <;> exact hn
+  | restore k =>
+    simp only [hstep]
+    cases hk : h.slots k <;> exact hn
+  | unpatchFn k =>
+    simp only [hstep]
+    cases hf : h.table.find? (fun e => e.1 = k) with
+    | none => exact hn
+    | some e =>
+      simp only
+      rcases hu : unpatchEntry h e with ⟨s1, r⟩
+      cases r <;> exact hn
+  | unpatchAll =>
+    simp only [hstep]
+    rw [unpatchAllFrom_slots]; exact hn
+  | unmap p => exact hn
+
+theorem hrun_short (L : Layout) (i : Nat) (hs : L.fsz i ≤ 13) : ∀ (ops : List HOp) (h : HState), h.slots i = none →
+    (hrun L h ops).slots i = none := by
+  intro ops
+  induction ops with
+  | nil => intro h hn; exact hn
+  | cons op rest ih => intro h hn; exact ih _ (hstep_short L h i hs hn op)
+
 theorem hrun_rel (L : Layout) (hL : LOK L) : ∀ (ops : List HOp) (h : HState), GOK L h →
     Rel L h.m (hrun L h ops).m ∧ GOK L (hrun L h ops) := by
   intro ops
